@@ -103,8 +103,8 @@ def main():
     from rv.selftest import catalogue
     muts = MUTANTS + catalogue.MUTANTS
     results = []
-    manifest = json.load(open(os.path.join(VERIF, 'MANIFEST.json')))
-    built = [c['property_id'] for c in manifest['checks']]
+    built = sorted(f[:-3].upper() for f in os.listdir(os.path.join(VERIF, 'rv', 'checks'))
+                   if f.startswith('c') and f.endswith('.py') and f[1:-3].isdigit())
     for (name, edits, expect, note) in muts:
         if args.only and args.only not in name:
             continue
